@@ -214,6 +214,36 @@ def sealSend (P : Prims) (k : SessionKeys) (p : SendPacket) : Except Err SendPac
     | .error e => .error e
     | .ok mk => .ok { p with payload := enc, msgKey := mk }
 
+/-- strconv.AppendInt(buf, i, 10) -/
+def decInt (i : Int) : Bytes := if i < 0 then 45 :: decBytes i.natAbs else decBytes i.natAbs
+
+structure RecvPacket where
+  setting : Nat := 0
+  msgKey : Bytes := []
+  messageID : Int := 0
+  messageSeq : Nat := 0
+  clientMsgNo : Bytes := []
+  timestamp : Int := 0
+  fromUID : Bytes := []
+  channelID : Bytes := []
+  channelType : Nat := 0
+  payload : Bytes := []
+  deriving DecidableEq, Repr
+
+/-- `RecvPacket.VerityBytes` -/
+def recvPreimage (r : RecvPacket) : Bytes :=
+  decInt r.messageID ++ decBytes r.messageSeq ++ r.clientMsgNo ++ decInt r.timestamp ++ r.fromUID ++ r.channelID ++
+    decBytes r.channelType ++ r.payload
+
+/-- `SealRecvPacket`: encrypt the payload, then key the SEALED packet -/
+def sealRecv (P : Prims) (k : SessionKeys) (r : RecvPacket) : Except Err RecvPacket :=
+  match encryptPayload P k r.payload with
+  | .error e => .error e
+  | .ok enc =>
+    match msgKeyOf P k (recvPreimage { r with payload := enc }) with
+    | .error e => .error e
+    | .ok mk => .ok { r with payload := enc, msgKey := mk }
+
 /-! ## key agreement -/
 
 /-- `DecodePublicKey` -/
